@@ -392,6 +392,24 @@ def run(ctx):
         if not trs:
             continue
         ctx.ob("C20.R5", fi_s, all(t.loops for t in trs), "%s._search: every swallowing try statement lies inside the loop over the entries (one bad entry must not end the scan)" % cls, key="%s handler per entry" % cls)
+    # "in order": a match found by descending into an entry and a match of an entry's own key are reported in the order of the entries, which
+    # they are when both happen in the one loop over the container's own entries (collecting the sub-containers first and searching them in
+    # a second pass reports a later scalar before an earlier nested match)
+    for cls in sorted(searchable):
+        fi_s, paths_s = own_method_paths(ctx, cls, "_search")
+        sites = {}
+        for p in paths_s:
+            for e in p.events:
+                if e.kind == "CALL" and e["func"][0] == "attr" and e["func"][2] in ("_search", "match") and not e.depth:
+                    lp = next((x for x in p.events if x.kind == "LOOP" and e.loops and x["lid"] == e.loops[-1]), None)
+                    own = lp is not None and any(x == SELF for x in N.walk(lp["iter"])) and not any(x[0] in ("lv", "new") for x in N.walk(lp["iter"]))
+                    sites[id(e.node)] = (sites.get(id(e.node), (True,))[0] and own, e, e["func"][2])
+        kinds = {k for _, _, k in sites.values()}
+        if cls == "Container" and not {"_search", "match"} <= kinds:
+            ctx.error("C20.R5 undecided: %s._search: the recursive descent and the key test were not both found as calls in the method (%s)" % (cls, sorted(kinds)))
+        for ok_, e, k in sites.values():
+            ctx.ob("C20.R5", fi_s, ok_, "%s._search: the %s happens inside the loop over the container's own entries (one pass, so matches come out in entry order)" % (
+                cls, "descent into a nested container" if k == "_search" else "key test"), key="%s one pass %s" % (cls, k), node=e.node)
     # the public functions call _search with the compiled pattern and the right mode: search -> first match, search_all -> all matches
     comp = ("call", ("attr", ("free", "re"), "compile"), (("param", "pattern"),), ())
     for cls in ("Container", "ListContainer"):
